@@ -32,6 +32,9 @@ type c31Scenario struct {
 	KeyMode  string     `json:"key_mode"` // explicit | legacy | auto
 	Key      string     `json:"key"`
 	ClientAuth bool     `json:"client_auth,omitempty"`
+	// PerClient: connections are accepted by a listener Config with unrelated explicit ticket keys whose
+	// GetConfigForClient returns server A's Config; the keys that count are A's (explicit/legacy key modes)
+	PerClient bool      `json:"per_client,omitempty"`
 	Events   []c31Event `json:"events"`
 	Net      NetCfg     `json:"net"`
 	Tape     []int      `json:"tape,omitempty"`
@@ -47,6 +50,7 @@ func genC31(seed uint64, tier string) any {
 		sc.Key = "p256"
 	}
 	sc.ClientAuth = r.Chance(1, 5)
+	sc.PerClient = sc.KeyMode != "auto" && r.Chance(1, 4)
 	sc.Net = NetCfg{SegMode: r.Intn(2), MaxSeg: []int{0, 100, 1460}[r.Intn(3)], LatMinUs: 100, LatMaxUs: 2000}
 	n := r.Range(3, 8)
 	sc.Events = append(sc.Events, c31Event{Kind: "connect"})
@@ -193,6 +197,22 @@ func execC31(t *testing.T, scAny any, keepLog bool) *Outcome {
 		case "legacy":
 			srvA.SessionTicketKey = newKey()
 			srvB.SessionTicketKey = newKey()
+		}
+		// what tls.Server is given for connections to A: A's Config itself, or a listener Config that hands A's
+		// Config out per client. The listener's own ticket keys are the foreign server's keys, so a ticket of
+		// the foreign server is exactly what a mix-up of the two key sets would accept.
+		acceptCfg := func() *tls.Config { return srvA }
+		if sc.PerClient {
+			listener := mk("listener")
+			switch sc.KeyMode {
+			case "explicit":
+				listener = srvB.Clone()
+			case "legacy":
+				listener.SessionTicketKey = srvB.SessionTicketKey
+			}
+			listener.GetConfigForClient = func(*tls.ClientHelloInfo) (*tls.Config, error) { return srvA, nil }
+			acceptCfg = func() *tls.Config { listener.MaxVersion = srvA.MaxVersion; return listener }
+			o.count("probe.per_client_config", 1)
 		}
 		cache := &simCache{cur: map[string]*tls.ClientSessionState{}}
 		ccfg := clientConfig(EndCfg{MaxVersion: sc.Version, Cache: true}, s, run.R.Derive("cli-rand"))
@@ -360,7 +380,7 @@ func execC31(t *testing.T, scAny any, keepLog bool) *Outcome {
 				if curBefore != nil {
 					offered = tls.VerifSessionTicket(curBefore)
 				}
-				co := startConn(run, fmt.Sprintf("c%d", connIdx), ccfg, srvA, sc.Net, nil)
+				co := startConn(run, fmt.Sprintf("c%d", connIdx), ccfg, acceptCfg(), sc.Net, nil)
 				s.Run()
 				connIdx++
 				if (co.CErr != nil || co.SErr != nil) && tampered && find(offered) != nil && find(offered).ByA {
